@@ -540,6 +540,23 @@ class Model(object):
 
     def enclosing_function(self, mi, target):
         """FuncInfo whose body contains AST node `target` (innermost named def)."""
+        # by identity first: statements expanded from a helper keep the
+        # helper's line numbers but live in the caller
+        idx = self.__dict__.get("_encl_index")
+        if idx is None or self.__dict__.get("_encl_count") != len(self.funcs):
+            idx = {}
+            for fi in self.funcs.values():
+                for sub in ast.walk(fi.node):
+                    cur = idx.get(id(sub))
+                    # innermost named def wins: a method of a nested class or
+                    # a nested def registered on its own is smaller
+                    if cur is None or len(cur.qual) < len(fi.qual):
+                        idx[id(sub)] = fi
+            self._encl_index = idx
+            self._encl_count = len(self.funcs)
+        hit = idx.get(id(target))
+        if hit is not None:
+            return hit
         best = None
         for fi in self.funcs.values():
             if fi.module != mi.name:
